@@ -253,9 +253,10 @@ HandlerPtr build(const Node &n)
     if (k == "slowonce") {
         // "stuck I/O": the first message that reaches this handler on a logger thread takes seconds
         int id = n.id % 64, ms = n.b;
-        return FunctionHandlerPtr::create([id, ms](LogMessage &lm) {
+        bool any_thread = n.a != 0; // a=1: also a synchronous caller gets stuck (others wait for the lock meanwhile)
+        return FunctionHandlerPtr::create([id, ms, any_thread](LogMessage &lm) {
             int s = sim::self();
-            if (s < 0 || s >= 64 || !C->is_worker[s] || C->slow_done[id])
+            if (s < 0 || s >= 64 || (!any_thread && !C->is_worker[s]) || C->slow_done[id])
                 return true;
             C->slow_done[id] = true;
             int cid = parse_call_id(lm);
